@@ -5,6 +5,13 @@ import random
 from vlib import core
 from vlib.core import cz, clist, cbool
 
+MANIFEST = dict(
+    text='Theorems (Coq, all op sequences, unbounded): the LaxBoundedSemaphore methods translated from pool.py on every run equal the model; 0 <= value <= size + shrinks-in-progress for every sequence of acquire/release/grow/shrink/clear; acquire enabled iff value > 0; release is lax. Correspondence on random op sequences against the real class.',
+    note='Trusted: Coq kernel, translate/pykernel.py, Lib/PyVal.v (Python int/None semantics), stdlib threading.Semaphore modelled (blocking acquire = Blocked), `with cond:` sections atomic. Pool-level slot conservation is partial (see DESIGN.md 5.10).',
+    technique='Coq proof over translator-regenerated kernel + differential correspondence',
+    ref='5.10',
+)
+
 HEADER = '''From Coq Require Import ZArith List Bool.
 From BV Require Import Lib.Cases Model.LaxSem.
 Import ListNotations. Open Scope Z_scope.
@@ -71,8 +78,7 @@ def correspond_sem(res, n):
 
 
 def run(res):
-    trans = core.translate()
-    res.proof_step('Props/C10.v', extra_targets=['Model/LaxSem.vo'], kernels_needed=['K_laxsem'], trans=trans)
+    res.proof_step('Props/C10.v', extra_targets=['Model/LaxSem.vo'], kernels_needed=['K_laxsem'])
     n = 400 if res.tier == 'quick' else 20000
     if res.broken:
         n = max(n, 5000)
